@@ -48,7 +48,8 @@ namespace nop {
 template <typename A, typename B, typename Enabled = void>
 struct IsFungible : std::is_same<std::decay_t<A>, std::decay_t<B>> {};
 
-// The element type of a std::array or C array as the rules below compare it:
+// The element type of a std::array, C array, tuple or pair as the rules below
+// compare it:
 // references and cv-qualifiers are stripped but, unlike std::decay, an element
 // that is itself a C array keeps its extent. Decaying the inner array of
 // int[2][3] and int[2][4] to a pointer would make the two compare equal although
@@ -138,7 +139,7 @@ struct IsFungible<std::unordered_map<KeyA, ValueA, AnyA...>,
 template <typename... A, typename... B>
 struct IsFungible<std::tuple<A...>, std::tuple<B...>,
                   std::enable_if_t<sizeof...(A) == sizeof...(B)>>
-    : And<IsFungible<std::decay_t<A>, std::decay_t<B>>...> {};
+    : And<IsFungible<ElementType<A>, ElementType<B>>...> {};
 template <typename... A, typename... B>
 struct IsFungible<std::tuple<A...>, std::tuple<B...>,
                   std::enable_if_t<sizeof...(A) != sizeof...(B)>>
@@ -147,19 +148,19 @@ struct IsFungible<std::tuple<A...>, std::tuple<B...>,
 // Compares two std::pairs to see if the corresponding elements are fungible.
 template <typename A, typename B, typename C, typename D>
 struct IsFungible<std::pair<A, B>, std::pair<C, D>>
-    : And<IsFungible<std::decay_t<A>, std::decay_t<C>>,
-          IsFungible<std::decay_t<B>, std::decay_t<D>>> {};
+    : And<IsFungible<ElementType<A>, ElementType<C>>,
+          IsFungible<ElementType<B>, ElementType<D>>> {};
 
 // Compares std::pair with a two-element std::tuple to see if the corresponding
 // elements are fungible.
 template <typename A, typename B, typename C, typename D>
 struct IsFungible<std::pair<A, B>, std::tuple<C, D>>
-    : And<IsFungible<std::decay_t<A>, std::decay_t<C>>,
-          IsFungible<std::decay_t<B>, std::decay_t<D>>> {};
+    : And<IsFungible<ElementType<A>, ElementType<C>>,
+          IsFungible<ElementType<B>, ElementType<D>>> {};
 template <typename A, typename B, typename C, typename D>
 struct IsFungible<std::tuple<A, B>, std::pair<C, D>>
-    : And<IsFungible<std::decay_t<A>, std::decay_t<C>>,
-          IsFungible<std::decay_t<B>, std::decay_t<D>>> {};
+    : And<IsFungible<ElementType<A>, ElementType<C>>,
+          IsFungible<ElementType<B>, ElementType<D>>> {};
 
 // Compares std::vector with an n-element std::tuple to see if every element of
 // the tuple is fugible with the non-integral vector element type.
